@@ -45,12 +45,14 @@ ArgValue(def, use, cvars) ==
   ELSE IF def # <<>> THEN [present |-> TRUE, val |-> Resolve(def[1], <<>>), src |-> "default"]
   ELSE Absent
 
-\* variable coercion for the variables of the bounded universe (all of type Int, nullable)
+\* variable coercion for the variables of the bounded universe (of type Int, nullable, unless the
+\* definition carries a type t)
 CoercedVars(vardefs, supplied) ==
   \* vardefs: sequence of [name, def (<<>> | <<value>>)]; supplied: sequence of [name, v]
   LET one(j) == LET vd == vardefs[j]
                     given == IF HasVar(supplied, vd.name) THEN <<VarVal(supplied, vd.name)>> ELSE <<>>
-                IN CoerceVar(Named("Int", FALSE), vd.def, given)
+                    T == IF "t" \in DOMAIN vd THEN vd.t ELSE Named("Int", FALSE)
+                IN CoerceVar(T, vd.def, given)
       idx == SelectSeq([j \in 1..Len(vardefs) |-> j], LAMBDA j : one(j).present)
   IN [m \in 1..Len(idx) |-> [name |-> vardefs[idx[m]].name, v |-> one(idx[m]).val]]
 =============================================================================
